@@ -26,7 +26,7 @@ res=o+[l for l in t if l not in o]
 open(f,"w").write("\n".join(res)+"\n")
 PY
       git add "$f" ;;
-    evidence/*) git checkout --theirs "$f" && git add "$f" ;;
+    evidence/*|coq/gen/*) git checkout --theirs "$f" && git add "$f" ;;
     *) echo "UNRESOLVED CONFLICT: $f" ;;
   esac
 done
